@@ -147,6 +147,29 @@ def recovery_cases(seed, thorough=False):
                 yield {'name': f"best_of_list_has_smallest_actual_deviation|{label}_data", 'ok': bool(ok), 'detail': f"returned {best.model.name}; deviations {actual}"}
             except CalculationError:
                 pass
+    # the same data with the temperature expressed in degrees Celsius: the same fitted curve (DR / DA carry -RT)
+    pt = numpy.linspace(0.01, 0.9, 20)
+    for mname, truth in (('DR', {'n_m': 10.0, 'e': 4000.0}), ('DA', {'n_m': 8.0, 'e': 5000.0, 'm': 2.5}), ('Langmuir', {'K': 3.0, 'n_m': 5.0})):
+        lt = _gen(mname, truth, pt, T=77.0)
+        try:
+            k = pgm.model_iso(_iso(pt, lt, temperature=77.0, temperature_unit='K'), model=mname)
+            c = pgm.model_iso(_iso(pt, lt, temperature=77.0 - 273.15, temperature_unit='°C'), model=mname)
+            same = all(close(k.model.params[q], c.model.params[q], rel=1e-4, abs_=1e-8) for q in truth)
+            rec = all(close(k.model.params[q], truth[q], rel=1e-3) for q in truth)
+            yield {'name': f"temperature_unit_covariance|{mname}", 'ok': bool(same and rec), 'detail': f"K: {k.model.params}; degC: {c.model.params}; generated with {truth}"}
+        except CalculationError:
+            yield {'name': f"temperature_unit_covariance|{mname}", 'ok': True, 'detail': 'optimiser reported failure (no claim)'}
+    # the options dictionary belongs to the caller: the same call twice gives the same outcome
+    pv = numpy.array([0.5, 1, 2, 3, 4, 5, 6, 7.0])
+    lv = 5 * 2 * pv / (1 + 2 * pv)
+    opts = {'add_point': True}
+    outs = []
+    for _ in range(2):
+        try:
+            outs.append(('ok', round(float(pgm.model_iso(_iso(pv, lv, pressure_mode='absolute', pressure_unit='bar'), model='Virial', optimization_params=opts).model.params['K']), 6)))
+        except CalculationError as exc:
+            outs.append(('CalculationError', None))
+    yield {'name': 'same_call_twice_same_outcome|Virial_add_point', 'ok': outs[0] == outs[1] and opts == {'add_point': True}, 'detail': f"{outs}; options afterwards {opts}"}
     # only the requested branch is used
     p2 = numpy.concatenate([p, p[::-1][1:]])
     l2 = numpy.concatenate([l, (l * 1.3)[::-1][1:]])
